@@ -5,6 +5,7 @@ package dtlshandshake
 
 import (
 	"context"
+	"math"
 	"time"
 
 	dtlsconfig "github.com/pion/dtls/v3/internal/config"
@@ -400,6 +401,16 @@ func (s *fsm13) handleReceivedFlight( //nolint:cyclop
 		return s.handlePreviousFlightRetransmit(ctx, conn, received.RecordsToACK, ackResult)
 	}
 	if received.HasHandshake && s.state.IsClient && s.currentFlight.IsLastSendFlight() {
+		if !s.hasPostHandshakeMessage() {
+			// Anybody can send an unprotected fragment: it says nothing about
+			// the final flight, which stays unacknowledged.
+			if err := sendACK(ctx, conn, s.state.LocalEpoch(), received.RecordsToACK); err != nil {
+				return receivedFlightTransition{}, err
+			}
+
+			return receivedFlightTransition{state: StateWaiting}, nil
+		}
+
 		return s.handleImplicitFinalACK(ctx, conn, received)
 	}
 
@@ -441,6 +452,20 @@ func (s *fsm13) handlePreviousFlightRetransmit(
 	}
 
 	return s.transitionAfterACK(ackResult, true), nil
+}
+
+// hasPostHandshakeMessage reports whether the next handshake message expected
+// from the peer has arrived under the application traffic keys.
+func (s *fsm13) hasPostHandshakeMessage() bool {
+	if s.state.HandshakeRecvSequence > math.MaxUint16 {
+		return false
+	}
+	item, ok := s.cache.PullExact(
+		uint16(s.state.HandshakeRecvSequence), //nolint:gosec // bounded above
+		!s.state.IsClient,
+	)
+
+	return ok && item.Epoch >= dtlsflight13.EpochApplication
 }
 
 func (s *fsm13) handleImplicitFinalACK(
